@@ -22,7 +22,11 @@ EXPLANATION = (
     'message read equals the one written in class, every attribute and delta time, with exactly one trailing '
     'end_of_track carrying the folded delta.  Whole-file level: MidiFile._save/_load on a symbolic header, save() '
     'rejecting type 0 with != 1 track, write_track rejecting real-time messages, negative and non-integral times '
-    'before anything is written, and REALTIME_TYPES = the status >= 0xF8 rows of SPECS.  Equality of arbitrary whole '
+    'before anything is written, and REALTIME_TYPES = the status >= 0xF8 rows of SPECS.  Arbitrary message mixes are covered '
+    'inductively (R07.6/R07.7): ONE iteration of write_track\'s loop is interpreted for every event kind x writer running '
+    'status (none / equal / different) and must emit the reference bytes and the right running status; ONE iteration of '
+    'read_track\'s loop is interpreted on those bytes for every reader state consistent with the invariant "writer keeps '
+    'running status S => reader remembers S" and must return the event and re-establish the invariant.  Equality of arbitrary whole '
     'files and the load-save-load fixed point on mutated bytes are values, not shape, and are not decided.')
 TRUSTED = ['midolint abstract interpreter, bit layout and wire domains', 'summaries: encode_variable_int/read_variable_int as VLQ(value) '
            '(bodies checked in C08 R08.1), read_bytes (C09 R09.6), struct.pack/unpack field model, encode/decode_string (C17)']
@@ -261,4 +265,10 @@ def _uses_param_on_path(path, ret, pname):
     return False
 
 
-RULES = [('R07-scenarios', r07_scenarios), ('R07.5', r07_5), ('R07.4', r07_4), ('R07-file', r07_file), ('R07.1-time', r07_1_time)]
+def r07_induction(ctx):
+    """All message mixes: one-step agreement of writer and reader under the running-status invariant."""
+    ai = smf.make_interp(ctx)
+    smf.inductive_agreement(ctx, ai, 'R07.6', 'R07.7')
+
+
+RULES = [('R07-induction', r07_induction), ('R07-scenarios', r07_scenarios), ('R07.5', r07_5), ('R07.4', r07_4), ('R07-file', r07_file), ('R07.1-time', r07_1_time)]
